@@ -337,6 +337,28 @@ func carriesAmounts(t types.Type) bool {
 	return false
 }
 
+// carryingFields lists the fields of a struct type (value-nested structs
+// included) whose type is a pointer or slice leading to summary amounts: a
+// plain copy of the struct shares them.
+func carryingFields(t types.Type) []string {
+	st, ok := t.Underlying().(*types.Struct)
+	if !ok {
+		return nil
+	}
+	var out []string
+	for i := 0; i < st.NumFields(); i++ {
+		f := st.Field(i)
+		if carriesAmounts(f.Type()) {
+			out = append(out, f.Name())
+		} else if _, isSt := f.Type().Underlying().(*types.Struct); isSt {
+			for _, s := range carryingFields(f.Type()) {
+				out = append(out, f.Name()+"."+s)
+			}
+		}
+	}
+	return out
+}
+
 func c20Alias(c *core.Ctx) {
 	p := c.P
 	var work []*core.FuncDecl
@@ -420,7 +442,62 @@ func c20Alias(c *core.Ctx) {
 			c.Ob("C20-R3", fmt.Sprintf("%s#%s", fd.Name(), what), pos, false,
 				"an operand-owned pointer to amount-carrying data is installed in the result (later writes through it, e.g. rounding or a further merge, alter the operand): "+what)
 		}
+		// shallow struct copies `v := *operand`: the copy's pointer fields still
+		// point into the operand unless each is re-assigned afterwards
+		handledStar := map[*ast.StarExpr]bool{}
+		shallow := func(star *ast.StarExpr) []string {
+			tv, ok := info.Types[star]
+			if !ok || !tv.IsValue() {
+				return nil
+			}
+			if _, isOp := isOperand(star.X); !isOp {
+				return nil
+			}
+			return carryingFields(tv.Type)
+		}
 		ast.Inspect(fd.Decl.Body, func(n ast.Node) bool {
+			as, ok := n.(*ast.AssignStmt)
+			if !ok || len(as.Lhs) != len(as.Rhs) {
+				return true
+			}
+			for i, lhs := range as.Lhs {
+				star, ok := ast.Unparen(as.Rhs[i]).(*ast.StarExpr)
+				if !ok {
+					continue
+				}
+				fields := shallow(star)
+				if len(fields) == 0 {
+					continue
+				}
+				handledStar[star] = true
+				v := core.VarOf(info, lhs)
+				for _, f := range fields {
+					reset := false
+					if v != nil {
+						ast.Inspect(fd.Decl.Body, func(m ast.Node) bool {
+							if as2, ok := m.(*ast.AssignStmt); ok && as2.Pos() > as.Pos() {
+								for _, l2 := range as2.Lhs {
+									if core.IsFieldOfVar(info, l2, v, f) {
+										reset = true
+									}
+								}
+							}
+							return true
+						})
+					}
+					if !reset {
+						report(as.Pos(), fmt.Sprintf("shallow-copy:%s.%s", types.ExprString(star), f))
+					}
+				}
+			}
+			return true
+		})
+		ast.Inspect(fd.Decl.Body, func(n ast.Node) bool {
+			if star, ok := n.(*ast.StarExpr); ok && !handledStar[star] {
+				for _, f := range shallow(star) {
+					report(star.Pos(), fmt.Sprintf("shallow-copy:%s.%s", types.ExprString(star), f))
+				}
+			}
 			if r, ok := n.(*ast.ReturnStmt); ok {
 				for _, e := range r.Results {
 					if t := info.TypeOf(e); t != nil && carriesAmounts(t) {
@@ -540,7 +617,8 @@ func c20Payment(c *core.Ctx) {
 			c.Ob("C20-R5", fd.Name()+"#accumulators", fd.Decl.Pos(), false, "no amount accumulation found")
 		}
 		for i, a := range accs {
-			if why := everyIteration(p, fd.Pkg.TypesInfo, fd.Decl.Body, a.Assign, nilTestOfOperands(fd.Pkg.TypesInfo, a.Assign)); why != "" {
+			// PaymentLine.calculate is itself the per-line step
+			if why := everyIterationOf(p, fd.Pkg.TypesInfo, fd.Decl.Body, a.Assign, nilTestOfOperandsIn(fd.Pkg.TypesInfo, fd.Decl.Body, a.Assign), spec.recv == "PaymentLine"); why != "" {
 				c.Ob("C20-R5", fmt.Sprintf("%s#%s%d:%s#every-line", fd.Name(), strings.ToLower(a.Op), i+1, types.ExprString(a.Dest)), a.Assign.Pos(), false,
 					"the accumulation is not executed for every line: "+why)
 			}
